@@ -106,7 +106,7 @@ def run_direct(ctx, n, tag):
             continue
         mx = rng.random() < 0.5
         factor = rng.choice([0.5, 1.0, 2.0, 3.0])
-        trunc = rng.choice([1.0, 1.0, 0.7, 0.5, 0.3])
+        trunc = rng.choice([1.0, 1.0, 0.7, 0.5, 0.3, 0.75, 0.55])
         if int(len(G) * trunc) < 1:
             continue
         dist[kind] = dist.get(kind, 0) + 1
@@ -117,6 +117,9 @@ def run_direct(ctx, n, tag):
             viol.append({"key": "C15/raised", "what": f"NearestBetterClustering raised {type(ex).__name__}: {ex}", "case": case, "replay_fn": "nbc"})
             continue
         kept, m = r["kept"], len(r["kept"])
+        if m != math.floor(len(G) * trunc) or kept != r["sorted"][:m]:
+            viol.append({"key": "C15/truncation", "what": f"NBC kept {m} of {len(G)} individuals with truncation {trunc}; the best floor(n x truncation) = {math.floor(len(G) * trunc)} are prescribed",
+                         "case": case, "replay_fn": "nbc"})
         g = (lambda f: -k_(f)) if mx else k_
         # --- model term (positions in the sorted, truncated list)
         rows = []
